@@ -182,8 +182,8 @@ def run(ctx):
             for op, n in more["ops"].items():
                 st["ops"][op] = st["ops"].get(op, 0) + n
     ctx.note("recorded %s: %d scans, %d events %s" % (st["profile"], st["traces"], st["events"], st["ops"]))
-    if st["extra"].get("capped_sweeps"):
-        ctx.note("WARNING: %d exhaustive sweeps were capped (chaotic output)" % st["extra"]["capped_sweeps"])
+    if st.get("extra", {}).get("capped_sweeps"):
+        ctx.note("WARNING: %d exhaustive sweeps were capped (chaotic output)" % st.get("extra", {})["capped_sweeps"])
     mm, tot = validate_num(ctx, [st])
     ctx.note("validated %d events (%d judged), %d mismatching events (first 60 per file listed)" % (tot["lines"], tot["judged"], tot["bad"]))
     viol, kn, other = judge(ctx, mm, spec["classes"])
@@ -199,7 +199,7 @@ def run(ctx):
                distinct_nontrivial=st["cases"],
                rule="every event is a distinct exact (input, output) pair, run or round trip produced by the real function; Seg/RTSeg/Clip records stand for every element of a run of consecutive inputs (rule equivalent to checking each element)",
                ops=st["ops"], instantiations=st["types"], known_findings_seen=len(kn), mismatches_other_classes=len(other),
-               capped_sweeps=st["extra"].get("capped_sweeps", 0), exhaustive=False,
+               capped_sweeps=st.get("extra", {}).get("capped_sweeps", 0), exhaustive=False,
                exhaustive_parts=EXHAUSTIVE_PARTS.get((spec["profile"], ctx.tier), []))
     if apa:
         cov["apalache_all_values"] = apa
